@@ -18,8 +18,8 @@ BAD_INPUT = '\x00'
 LONG_INPUT = '1' * 300
 
 
-def mc_cfg(mode, maxreq, nflags, invariants=(), emit=False):
-    c = dict(BASE_CONST, Mode=mode, MaxReq=maxreq, NFlags=nflags)
+def mc_cfg(mode, maxreq, nflags, invariants=(), emit=False, cap=0):
+    c = dict(BASE_CONST, Mode=mode, MaxReq=maxreq, NFlags=nflags, Cap=cap)
     txt = core.gen_cfg(constants=c, invariants=invariants, view='View', action_constraint='Emit' if emit else None)
     return txt.replace('CONSTANTS\n', 'CONSTANTS\n  ' + '\n  '.join(SUBST) + '\n')
 
@@ -63,10 +63,11 @@ class Family:
     # ---- A
     def model_check(self, maxreq):
         for prog in self.programs:
-            nflags = 8 + json.load(open(prog_path(prog)))['flagcount']
+            pj = json.load(open(prog_path(prog)))
+            nflags = 8 + pj['flagcount']
             for mode in self.modes:
                 cfg = 'mc_%s_%s.cfg' % (prog, mode)
-                open(os.path.join(self.w, cfg), 'w').write(mc_cfg(mode, maxreq, nflags, self.mc_invs))
+                open(os.path.join(self.w, cfg), 'w').write(mc_cfg(mode, maxreq, nflags, self.mc_invs, cap=pj.get('cachesize', 0)))
                 r = core.tlc(self.w, 'ViseMC', cfg, workers=core.NCPU, timeout=3000, coverage=self.thorough,
                              env={'VERIF_PROG': prog_path(prog)})
                 core.require_tlc_ok(r, 'ViseMC %s/%s' % (prog, mode))
@@ -77,10 +78,11 @@ class Family:
     # ---- B + C for model programs
     def replay_model(self, maxreq, limit=None):
         for prog in self.programs:
-            nflags = 8 + json.load(open(prog_path(prog)))['flagcount']
+            pj = json.load(open(prog_path(prog)))
+            nflags = 8 + pj['flagcount']
             for mode in self.modes:
                 cfg = 'gen_%s_%s.cfg' % (prog, mode)
-                open(os.path.join(self.w, cfg), 'w').write(mc_cfg(mode, maxreq, nflags, emit=True))
+                open(os.path.join(self.w, cfg), 'w').write(mc_cfg(mode, maxreq, nflags, emit=True, cap=pj.get('cachesize', 0)))
                 hp = os.path.join(self.d, 'hist_%s_%s.ndjson' % (prog, mode))
                 hists = []
                 with open(hp, 'w') as f:
